@@ -124,6 +124,12 @@ class SafetyMonitor(Monitor):
         sums = None
         committed, applied_at, leaders, votes, cbs, neg, regular = g
 
+        # ---- a node never drops entries it knows to be committed (C04)
+        if 'C04' in C and post.commit is not None and post.last is not None and post.last < post.commit and \
+                not (post.commit != pre.commit or restarted):
+            raise core.Violation('C04 %s cut its log back to %d although it knows positions up to %d to be committed (%r)' % (
+                nid, post.last, post.commit, ev), sig='commit-beyond-log')
+
         # ---- commit index advance (C04)
         if post.commit is not None and (restarted or post.commit != pre.commit):
             lo = (pre.commit if not restarted else 0)
